@@ -1889,8 +1889,16 @@ class TensorDict(TensorDictBase):
             d[key] = value[mask_expand]
         dim = int(mask.sum().item())
         other_dim = self.shape[mask.ndim :]
+        names = None
+        if self._has_names():
+            # the dims covered by the mask collapse into one (unnamed) dim, the
+            # remaining batch dims keep their names (as with td[mask])
+            names = [None, *self.names[mask.ndim :]]
         return TensorDict(
-            device=self.device, source=d, batch_size=torch.Size([dim, *other_dim])
+            device=self.device,
+            source=d,
+            batch_size=torch.Size([dim, *other_dim]),
+            names=names,
         )
 
     def _view(
